@@ -965,9 +965,9 @@ class TensorDict(TensorDictBase):
                 agglomerate = torch.cat(agglomerate, dim=0)
                 return getattr(torch, reduction_name)(agglomerate)
             else:
-                agglomerate = list(
-                    self._values_list(True, True, is_leaf=_NESTED_TENSORS_AS_LISTS)
-                )
+                # the leaves are concatenated along a batch dim: a nested lazy stack must
+                # contribute its stacked leaves, not one leaf per member
+                agglomerate = list(self._values_list(True, True, collapse=True))
                 if dim == "feature":
                     agglomerate = [
                         (
